@@ -1231,7 +1231,7 @@ def report(acc, cd, hist, problem, memo):
             diff = [str(cd[k2]) for k2 in ("name", "storage", "ixmode", "compound") if cd.get(k2) != plain[k2]]
             suffix = "@" + ",".join(diff)
     sig = sig_of(h[-1], api, kind, suffix)
-    case = {"cfg": cd, "history": h, "api": api, "kind": kind, "found_in": hist}
+    case = {"cfg": cd, "history": h, "api": api, "kind": kind}
     what = "history %s: %s" % (fmt_hist(h), prob[3])
     memo[presig] = (sig, case, what)
     acc.violation(sig, case, what)
